@@ -130,10 +130,7 @@ class Ctx:
         lock = open(os.path.join(VERIF, ".build.lock"), "w")
         fcntl.flock(lock, fcntl.LOCK_EX)
         try:
-            if not os.path.exists(os.path.join(COQ, "Makefile")):
-                subprocess.run(["coq_makefile", "-f", "_CoqProject", "-o", "Makefile"], cwd=COQ, check=True,
-                               stdout=subprocess.DEVNULL)
-            r = subprocess.run(["timeout", "3000", "make", "-j16"], cwd=COQ, capture_output=True, text=True)
+            r = subprocess.run([os.path.join(VERIF, "bin", "setup")], capture_output=True, text=True)
             if r.returncode != 0:
                 print(r.stdout[-3000:], r.stderr[-3000:])
                 raise SystemExit("static Coq library does not build")
@@ -266,9 +263,17 @@ class Ctx:
 
     def load_known(self):
         p = os.path.join(VERIF, "known_findings.json")
-        if not os.path.exists(p):
-            return []
-        return [e for e in json.load(open(p)).get("entries", []) if e.get("property") == self.id]
+        entries = []
+        if os.path.exists(p):
+            entries += json.load(open(p)).get("entries", [])
+        fd = os.path.join(VERIF, "findings")  # per-property fragments (merged into known_findings.json by hand)
+        if os.path.isdir(fd):
+            for f in sorted(os.listdir(fd)):
+                if f.endswith(".json"):
+                    for e in json.load(open(os.path.join(fd, f))).get("entries", []):
+                        if not any(x.get("key") == e.get("key") for x in entries):
+                            entries.append(e)
+        return [e for e in entries if e.get("property") == self.id]
 
     def finish(self, level="proof", extra_cov=None):
         known = [e for e in self.load_known() if e.get("kind") == "finding"]
